@@ -356,3 +356,83 @@ pub broadcast group group_fmt { axiom_fmt_pathbuf, axiom_fmt_path, axiom_fmt_ioe
         ensures delete_folder_post(*old(w), *final(w), backup_dir()),  // @C17.delete_backup_folder.removes_the_backup_folder
 """)
     u.flush_e9()
+
+    # the five arms of `match cli.command` in main (E5b): each arm's block becomes the body of a generated async fn;
+    # free variables of the arm (the pattern's bindings) become parameters. Dropped by E5: logger::init_logger(),
+    # Cli::parse() and the banner line that precede the match.
+    from vxlib import Undecided
+    it = mn.item("main", "fn")
+    if len(it["matches"]) != 1:
+        raise Undecided("main: expected exactly one match, found %d" % len(it["matches"]))
+    m = it["matches"][0]
+    if mn.s(*m["scrutinee"]).replace(" ", "") != "cli.command":
+        raise Undecided("main: the match is no longer on cli.command")
+    arms = {}
+    for a in m["arms"]:
+        pat = mn.s(*a["pat"])
+        for k in ("Backup", "Restore", "Uninstall", "Purge", "Install"):
+            if pat.replace(" ", "").startswith("args::Command::" + k):
+                arms[k] = a
+    if len(arms) != 5 or len(m["arms"]) != 5:
+        raise Undecided("main: expected the five command arms, found %s" % sorted(arms))
+    # work-around: slice_fn's E4 insertion does not drop the ", " after a trailing comma (take_fn does)
+    for c in it["calls"]:
+        j = c["span"][1] - 2
+        while mn.b[j:j + 1] in (b" ", b"\n", b"\t"):
+            j -= 1
+        if mn.b[j:j + 1] == b",":
+            c["args"] = []
+    PBA = BU + "broadcast use lemma_push_drop_last;\nproof { lemma_lits(); lemma_names(); lemma_verbs(); lemma_layout(); }\n"
+
+    def arm(k, name, params, contract, gc):
+        a = arms[k]
+        u.slice_fn(mn, "main", name, a["body"][0], a["body"][1], (params + ", " if params else "") + W, contract=contract, is_async=True,
+                   pre_body=PBA, ghost_calls=gc, what="(arm %s of match cli.command)" % mn.s(*a["pat"]))
+
+    arm("Backup", "vx_arm_backup", "", """
+        requires wf_layout(),
+        ensures
+            old(w).fault ==> final(w).fault,
+            !final(w).fault ==> final(w).fs =~= backup_op(old(w).fs),  // @C17.backup.backup_slots_hold_system_files
+            forall|p: PathV| !is_bak_slot(p) ==> #[trigger] at(final(w).fs, p) == at(old(w).fs, p),  // @C17.backup.nothing_else_changes
+            neutral_ext(old(w).tr, final(w).tr),  // @C17.backup.service_and_system_files_untouched
+            step_ok(Cmd::Backup, *old(w), *final(w)),  // @C17.backup.refines_command_step
+""", [("backup_proxy_agent(", None, WA)])
+    arm("Restore", "vx_arm_restore", "delete_backup: bool", """
+        requires wf_layout(),
+        ensures
+            old(w).fault ==> final(w).fault,
+            no_backup(old(w).fs) ==> *final(w) == *old(w),  // @C17.restore.without_backup_changes_nothing
+            !old(w).fs.dom().contains(bak_exe()) ==> *final(w) == *old(w),  // @C17.restore.without_backed_up_executable_changes_nothing
+            !final(w).fault ==> final(w).fs =~= restore_op(old(w).fs, delete_backup),  // @C17.restore.puts_back_the_saved_files
+            forall|p: PathV| !is_sys(p) && !(delete_backup && in_backup(p)) ==> #[trigger] at(final(w).fs, p) == at(old(w).fs, p),  // @C17.restore.changes_only_system_locations_and_backup
+            !final(w).fault && old(w).fs.dom().contains(bak_exe()) ==> restore_trace(old(w).tr, final(w).tr, delete_backup),  // @C17.restore.stopped_before_first_write_started_after_last
+            step_ok(Cmd::Restore { delete_backup }, *old(w), *final(w)),  // @C17.restore.refines_command_step
+""", [("check_backup_exists(", None, WA), ("stop_service(", None, WA), ("restore_proxy_agent(", None, WA), ("setup_service(", None, WA), ("delete_backup_folder(", None, WA)])
+    arm("Uninstall", "vx_arm_uninstall", "uninstall_mode: args::UninstallMode", """
+        requires wf_layout(),
+        ensures
+            old(w).fault ==> final(w).fault,
+            !final(w).fault ==> final(w).fs =~= uninstall_op(old(w).fs, uninstall_mode == args::UninstallMode::Package),  // @C17.uninstall.package_mode_removes_the_installed_files
+            forall|p: PathV| !is_sys(p) ==> #[trigger] at(final(w).fs, p) == at(old(w).fs, p),  // @C17.uninstall.only_system_locations_change
+            !final(w).fault ==> quiet_ext(old(w).tr.push(systemctl("stop"@)), final(w).tr),  // @C17.uninstall.stopped_before_removal
+            step_ok(Cmd::Uninstall { package: uninstall_mode == args::UninstallMode::Package }, *old(w), *final(w)),  // @C17.uninstall.refines_command_step
+""", [("uninstall_service(", None, WA), ("delete_package(", None, WA)])
+    arm("Purge", "vx_arm_purge", "", """
+        requires wf_layout(),
+        ensures
+            old(w).fault ==> final(w).fault,
+            !final(w).fault ==> final(w).fs =~= purge_op(old(w).fs),  // @C17.purge.removes_the_backup
+            forall|p: PathV| !in_backup(p) ==> #[trigger] at(final(w).fs, p) == at(old(w).fs, p),  // @C17.purge.removes_only_the_backup
+            final(w).tr == old(w).tr.push(Ev::RemoveTree(backup_dir())),  // @C17.purge.service_and_system_files_untouched
+            step_ok(Cmd::Purge, *old(w), *final(w)),  // @C17.purge.refines_command_step
+""", [("delete_backup_folder(", None, WA)])
+    arm("Install", "vx_arm_install", "", """
+        requires wf_layout(),
+        ensures
+            old(w).fault ==> final(w).fault,
+            !final(w).fault ==> final(w).fs =~= install_op(old(w).fs),  // @C17.install.places_exactly_the_packaged_files
+            forall|p: PathV| !is_sys(p) ==> #[trigger] at(final(w).fs, p) == at(old(w).fs, p),  // @C17.install.only_system_locations_change
+            !final(w).fault ==> stop_work_start(old(w).tr, final(w).tr),  // @C17.install.stopped_before_first_write_started_after_last
+            step_ok(Cmd::Install, *old(w), *final(w)),  // @C17.install.refines_command_step
+""", [("stop_service(", None, WA), ("copy_proxy_agent(", None, WA), ("setup_service(", None, WA)])
